@@ -2,7 +2,7 @@
    refinement of the BigN evaluator used by the correspondence runs. *)
 From Coq Require Import List NArith ZArith Arith Bool Lia ZifyN ZifyNat ZifyBool.
 From Bignums Require Import BigN.
-From AHK Require Import Lib.Res Lib.ByteStr Model.Sha512 Model.Srp Model.SrpBig
+From AHK Require Import Lib.Res Lib.ByteStr Model.Sha512 Model.Srp Model.SrpCases Model.SrpBig
   Proofs.Sha512 Proofs.SrpBytes Proofs.Srp.
 Import ListNotations.
 Local Open Scope Z_scope.
@@ -128,3 +128,11 @@ Definition nonvacuous_exchange_check : bool :=
 
 Lemma nonvacuous_exchange_ok : nonvacuous_exchange_check = true.
 Proof. vm_cast_no_check (eq_refl true). Qed.
+
+(* the input-decoding glue of the case files agrees with [bytes_of] (samples) *)
+Example bytes_of_fast_samples :
+  forallb (fun p => beq (bytes_of_fast (fst p) (snd p)) (bytes_of (fst p) (snd p)))
+    [(0, 0); (0, 5); (1, 0); (1, 255); (1, 256); (2, 255); (2, 256); (3, 65535); (16, 0); (16, 1);
+     (16, 2 ^ 127); (16, 2 ^ 128 - 1); (16, 2 ^ 128 + 77); (64, 2 ^ 504); (64, 2 ^ 503 + 12345);
+     (384, Z.to_N N3072); (384, 5); (383, Z.to_N N3072); (10, 0x506169722d5365747570)]%N = true.
+Proof. vm_compute. reflexivity. Qed.
